@@ -363,10 +363,46 @@ def run_same_window(form, pattern, sel_idx, kwc, compiled):
     return dict(ok=True, desc=desc, got='%d pairs, one parameter set each' % len(seen))
 
 
+def run_inplace(entry, form, pattern, sel_idx, kwc, compiled):
+    """history: call ; change a spike time of the first selected train IN PLACE (same array object, still a valid
+    train) ; call again - the second result must be the one for the CURRENT spike times (nothing may survive from the
+    first call: caches keyed by object identity, prepared copies kept on the SpikeTrain)"""
+    kw = dict(KW_CLASSES[kwc])
+    trains, ids = make_trains(pattern)
+    desc = dict(entry='@inplace:' + entry, form=form, empty=[x is True for x in pattern], indices=list(sel_idx), kwargs=kwc, compiled=bool(compiled))
+    AUTO_POOL['all'] = ids if form in ('indices', 'indices_np') else None
+    F.install(compiled)
+    try:
+        try:
+            call(entry, form, trains, sel_idx, dict(kw))
+            t = trains[sel_idx[0]]
+            t.spikes[len(t.spikes) - 1] -= 0.125                      # in place; stays sorted and inside the recording
+            ids = list(ids)
+            ids[sel_idx[0]] = F.W.register('s%dm' % sel_idx[0], [float(x) for x in t.spikes])
+            if AUTO_POOL['all'] is not None:
+                AUTO_POOL['all'] = ids
+            F.W.calls[:] = []
+            r = call(entry, form, trains, sel_idx, dict(kw))
+        finally:
+            F.unpatch()
+    except NotImplementedError as ex:
+        return dict(ok=True, skipped=str(ex), desc=desc)
+    except Exception as ex:
+        return dict(ok=False, kind='exception', detail="%s: %s" % (type(ex).__name__, str(ex)[:200]), desc=desc)
+    got = normalise_result(entry, r)
+    exp = expected(entry, [ids[i] for i in sel_idx], kw)
+    if not same(got, exp):
+        return dict(ok=False, kind='mismatch', desc=desc,
+                    detail='second call after an in-place change of a spike time: got %s  expected %s' % (show(got)[:300], show(exp)[:300]))
+    return dict(ok=True, desc=desc, got=show(got)[:200])
+
+
 def run_one(entry, form, pattern, sel_idx, kwc, compiled, disorder=False, reconcile_off=False):
     """-> dict(ok, kind, detail). kinds: mismatch | exception | nan | modified-input"""
     if entry == '@same_window':
         return run_same_window(form, pattern, sel_idx, kwc, compiled)
+    if entry.startswith('@inplace:'):
+        return run_inplace(entry[len('@inplace:'):], form, pattern, sel_idx, kwc, compiled)
     kw = dict(KW_CLASSES[kwc])
     trains, ids = make_trains(pattern, disorder)
     sel = [ids[i] for i in sel_idx]
@@ -490,6 +526,15 @@ def family(name, n, tier):
                 for sel in index_lists(n):
                     for form in ('sublist', 'indices', 'two_args', 'varargs'):
                         yield ('@same_window', form, tuple([False] * n), sel, kwc, compiled)
+    elif name == 'inplace':        # history: call ; in-place change of a spike time ; call
+        for entry in entries:
+            for kwc in ('default', 'MRTS'):
+                if not kw_allowed(entry, kwc):
+                    continue
+                for compiled in (False, True):
+                    sel = tuple(range(n))
+                    for form in forms_for(entry, n, kwc):
+                        yield ('@inplace:' + entry, form, tuple([False] * n), sel, kwc, compiled)
     elif name == 'near':           # distinct trains whose spike times differ by a few 1e-9 (tolerance-based shortcuts must not fire)
         pats = {2: [(False, 'near0')], 3: [(False, 'near0', False), (False, 'near0', 'near0')]}[n]
         for entry in entries:
